@@ -42,7 +42,10 @@ def classify_store(fi: FunctionInfo, stmt, attr) -> str:
         used = {n.id for n in ast.walk(ev) if isinstance(n, ast.Name)} & params
         keyed = isinstance(v, ast.Tuple) and len(v.elts) == 2 and any(
             isinstance(c, ast.Compare) and f"self.{attr}[1]" in src(c) for c in ast.walk(fi.node))
-        if used and not keyed:
+        # only methods that hand a result back are getters; a method that just sets state (returns nothing) is an explicit setter
+        returns_value = any(isinstance(r_, ast.Return) and r_.value is not None and not (isinstance(r_.value, ast.Constant) and r_.value.value is None)
+                            for r_ in ast.walk(fi.node))
+        if used and not keyed and returns_value:
             return "sticky:" + ",".join(sorted(used))
         return "independent"
     # self.x = <wrap>([e for e in self.x if p(e)])   with p not reading self.x
